@@ -153,7 +153,7 @@ static void watch_cb(void *_ck, struct inotify_event *ev)
 	struct wcookie *ck = _ck;
 	struct watch *w;
 	struct rec *r;
-	int menu[16], arg[16], n = 0, c, k, my_inst;
+	int menu[24], arg[24], n = 0, c, k, my_inst;
 
 	if (ck < wck || ck >= wck + nwck)
 		mc_fail("cookie", "watch handler called with an unknown cookie");
@@ -190,11 +190,29 @@ static void watch_cb(void *_ck, struct inotify_event *ev)
 	for (k = 0; k < NI; k++)
 		if (I[k].reg) { menu[n] = 2; arg[n++] = k; }
 	if (!W[NW - 1].reg && !W[NW - 1].p && I[my_inst].reg) { menu[n] = 3; arg[n++] = my_inst; }
+	for (k = 0; k < NI; k++)
+		if (I[k].reg && I[k].gen < 3) { menu[n] = 4; arg[n++] = k; }
 	c = mc_choose(n, MC_ACTION, "cb-watch");
 	switch (menu[c]) {
 	case 1: mc_obs("unreg-w%d", arg[c]); unreg_watch(arg[c]); break;
 	case 2: mc_obs("unreg-i%d", arg[c]); unreg_inst(arg[c]); break;
 	case 3: mc_obs("reg-w%d", NW - 1); reg_watch(NW - 1, arg[c], dir2, IN_CREATE | IN_DELETE); break;
+	case 4: {
+		/* unregister an instance and register the very same struct again (objects may be re-registered after
+		 * unregistration; nothing says IV_INOTIFY_INIT has to be repeated) */
+		int i2 = arg[c], q;
+		mc_obs("cycle-i%d", i2);
+		iv_inotify_unregister(I[i2].p);
+		for (q = 0; q < NW; q++)
+			if (W[q].inst == i2 && W[q].p) {
+				W[q].reg = 0;
+				free_watch(&W[q]);
+			}
+		if (iv_inotify_register(I[i2].p) != 0)
+			mc_fail("try-failed", "iv_inotify_register failed");
+		I[i2].gen++;
+		break;
+	}
 	}
 	cb_depth--;
 }
@@ -337,7 +355,19 @@ static void exec_one(void)
 	touch(f1);
 
 	env_exclude_methods = mc_arg_int("method", 0) == 3 ? "epoll-timerfd epoll ppoll" : "";
-	preset = mc_choose(5, MC_CONFIG, "preset");
+	{
+		int pl[8], np = 0;
+		const char *a = mc_arg("presets", "");
+		while (*a && np < 8) {
+			char *e;
+			long v = strtol(a, &e, 10);
+			if (e == a) break;
+			pl[np++] = v;
+			a = e;
+			if (*a == ',') a++;
+		}
+		preset = np ? pl[mc_choose(np, MC_CONFIG, "preset")] : mc_choose(5, MC_CONFIG, "preset");
+	}
 	op1 = mc_choose(7, MC_CONFIG, "op1");
 	op2 = mc_choose(7, MC_CONFIG, "op2");
 	burst2 = mc_choose(3, MC_CONFIG, "round2") ? (op1 == 2 ? 1 : 2) : 0;
